@@ -83,7 +83,15 @@ impl Prop for Accept {
         }
     }
     fn floors() -> Vec<(&'static str, u32)> {
-        vec![("task_succeeded", 100), ("task_failed", 100), ("unsol_duplicate", 20), ("multi_fragment_read", 50), ("series_past_seq_wrap", 20), ("startup_poll_outstanding", 50), ("unsol_ignored_then_repeated", 2)]
+        vec![
+            ("task_succeeded", 100),
+            ("task_failed", 100),
+            ("unsol_duplicate", 20),
+            ("multi_fragment_read", 50),
+            ("series_past_seq_wrap", 20),
+            ("startup_poll_outstanding", 50),
+            ("unsol_ignored_then_repeated", 2),
+        ]
     }
     fn strategy(_tier: Tier) -> BoxedStrategy<Case> {
         let dev = prop_oneof![
@@ -116,7 +124,12 @@ impl Prop for Accept {
                     TaskKind::Read(n) | TaskKind::Startup(n) if n > 3 => n - 1 - back.min(n - 1),
                     _ => 0,
                 };
-                Case { task, items, decode, prefix }
+                Case {
+                    task,
+                    items,
+                    decode,
+                    prefix,
+                }
             })
             .boxed()
     }
@@ -129,11 +142,17 @@ impl Prop for Accept {
 /// objects of planned READ fragment k: three binary inputs with flags, indices unique per fragment
 fn read_objects(k: u8) -> (Vec<u8>, Vec<u16>) {
     let start = k * 4;
-    (ra::h_range8(1, 2, start, start + 2, &[0x81, 0x01, 0x81]), vec![start as u16, start as u16 + 1, start as u16 + 2])
+    (
+        ra::h_range8(1, 2, start, start + 2, &[0x81, 0x01, 0x81]),
+        vec![start as u16, start as u16 + 1, start as u16 + 2],
+    )
 }
 
 fn unsol_objects(n: u8) -> (Vec<u8>, Vec<u16>) {
-    (ra::h_prefixed16(2, 1, &[(200 + n as u16, vec![0x81])]), vec![200 + n as u16])
+    (
+        ra::h_prefixed16(2, 1, &[(200 + n as u16, vec![0x81])]),
+        vec![200 + n as u16],
+    )
 }
 
 #[derive(Debug, Clone, PartialEq)]
@@ -180,21 +199,37 @@ async fn run_case(case: &Case) -> CaseOut {
         out.label("startup_poll_outstanding");
     }
     rig.add_association(OUT_A, cfg_a, Some(0)).await;
-    rig.add_association(OUT_B, assoc_config(TIMEOUT), Some(0)).await;
+    rig.add_association(OUT_B, assoc_config(TIMEOUT), Some(0))
+        .await;
     rig.connect().await;
     if !startup_mode {
         let _ = rig.take_tx();
     }
-    let read_type = if startup_mode { "StartupIntegrity" } else { "SinglePoll" };
+    let read_type = if startup_mode {
+        "StartupIntegrity"
+    } else {
+        "SinglePoll"
+    };
 
     // --- start the task ---
     let mut h = rig.assocs[&OUT_A].handle.clone();
     let pending = match &case.task {
-        TaskKind::Read(_) => Some(rig.submit("read", async move { h.read(ReadRequest::class_scan(Classes::class0())).await })),
-        TaskKind::Command => Some(rig.submit("command", async move {
-            h.operate(CommandMode::DirectOperate, CommandBuilder::single_header_u8(Group12Var1::from_code(ControlCode::from_op_type(OpType::LatchOn)), 3u8)).await
+        TaskKind::Read(_) => Some(rig.submit("read", async move {
+            h.read(ReadRequest::class_scan(Classes::class0())).await
         })),
-        TaskKind::LinkStatus => Some(rig.submit("link", async move { h.check_link_status().await })),
+        TaskKind::Command => Some(rig.submit("command", async move {
+            h.operate(
+                CommandMode::DirectOperate,
+                CommandBuilder::single_header_u8(
+                    Group12Var1::from_code(ControlCode::from_op_type(OpType::LatchOn)),
+                    3u8,
+                ),
+            )
+            .await
+        })),
+        TaskKind::LinkStatus => {
+            Some(rig.submit("link", async move { h.check_link_status().await }))
+        }
         TaskKind::Idle | TaskKind::Startup(_) => None,
     };
     rig.settle().await;
@@ -204,7 +239,10 @@ async fn run_case(case: &Case) -> CaseOut {
         (TaskKind::Idle, _) | (TaskKind::LinkStatus, _) => (0u8, vec![]),
         (_, Some((_, dst, f))) if *dst == OUT_A => (f.seq, f.objects.clone()),
         _ => {
-            out.fail(Fail::new("request-not-sent", format!("the master did not transmit the request: {:?}", tx_all)));
+            out.fail(Fail::new(
+                "request-not-sent",
+                format!("the master did not transmit the request: {:?}", tx_all),
+            ));
             return out;
         }
     };
@@ -234,7 +272,10 @@ async fn run_case(case: &Case) -> CaseOut {
     let mut unsol_delivered: std::collections::BTreeSet<u8> = Default::default();
     let mut unsol_ignored: std::collections::BTreeSet<u8> = Default::default();
     let mut all_log: Vec<HEv> = vec![];
-    let items: Vec<Item> = std::iter::repeat(Item::Good(false)).take(case.prefix.min(planned.saturating_sub(1)) as usize).chain(case.items.iter().cloned()).collect();
+    let items: Vec<Item> = std::iter::repeat(Item::Good(false))
+        .take(case.prefix.min(planned.saturating_sub(1)) as usize)
+        .chain(case.items.iter().cloned())
+        .collect();
     for item in &items {
         if out.failed() || rig.task_failure.is_some() {
             break;
@@ -245,8 +286,21 @@ async fn run_case(case: &Case) -> CaseOut {
         let is_last = next_k + 1 >= planned;
         // the fragment the master is waiting for
         let good = |con_on_final: bool| -> Fragment {
-            let (objects, _) = if case.task == TaskKind::Command { (req_objects.clone(), vec![]) } else { read_objects(next_k) };
-            Fragment { fir: is_first, fin: is_last, con: !is_last || con_on_final, uns: false, seq: cur_seq, func: func::RESPONSE, iin: Some((0, 0)), objects }
+            let (objects, _) = if case.task == TaskKind::Command {
+                (req_objects.clone(), vec![])
+            } else {
+                read_objects(next_k)
+            };
+            Fragment {
+                fir: is_first,
+                fin: is_last,
+                con: !is_last || con_on_final,
+                uns: false,
+                seq: cur_seq,
+                func: func::RESPONSE,
+                iin: Some((0, 0)),
+                objects,
+            }
         };
         let mut expect_confirm: Option<(u8, bool, u16)> = None;
         let mut forbid_any_confirm = true;
@@ -273,7 +327,11 @@ async fn run_case(case: &Case) -> CaseOut {
                     rig.settle().await;
                     if !poisoned {
                         if case.task != TaskKind::Command {
-                            expect_deliveries.push(Delivery::Frag(read_type.into(), f.seq, read_objects(next_k).1));
+                            expect_deliveries.push(Delivery::Frag(
+                                read_type.into(),
+                                f.seq,
+                                read_objects(next_k).1,
+                            ));
                         }
                         if f.con {
                             expect_confirm = Some((f.seq, false, OUT_A));
@@ -290,7 +348,16 @@ async fn run_case(case: &Case) -> CaseOut {
                     }
                 } else {
                     // nothing outstanding (or the task is over): a solicited response is unexpected and must be ignored
-                    let f = Fragment { fir: true, fin: true, con: *con_on_final, uns: false, seq: cur_seq, func: func::RESPONSE, iin: Some((0, 0)), objects: read_objects(7).0 };
+                    let f = Fragment {
+                        fir: true,
+                        fin: true,
+                        con: *con_on_final,
+                        uns: false,
+                        seq: cur_seq,
+                        func: func::RESPONSE,
+                        iin: Some((0, 0)),
+                        objects: read_objects(7).0,
+                    };
                     rig.respond(OUT_A, &f);
                     rig.settle().await;
                     if link_task && !link_done {
@@ -303,23 +370,35 @@ async fn run_case(case: &Case) -> CaseOut {
             Item::Deviant(d) => {
                 if task_live && planned > 0 {
                     out.nontrivial = true;
-                    out.label(format!("deviant:{}", match d {
-                        Dev::WrongSeq(_) => "wrong_seq",
-                        Dev::ForeignSource => "foreign_source",
-                        Dev::UnknownSource => "unknown_source",
-                        Dev::FirFlipped => "fir",
-                        Dev::NoConOnNonFin => "no_con",
-                        Dev::FinFlipped => "fin",
-                        Dev::UnsBitSet => "uns_bit",
-                        Dev::Iin2(_) => "iin2",
-                        Dev::TruncatedObjects => "truncated",
-                        Dev::UnknownObject => "unknown_object",
-                        Dev::NotAResponse(_) => "not_a_response",
-                    }));
+                    out.label(format!(
+                        "deviant:{}",
+                        match d {
+                            Dev::WrongSeq(_) => "wrong_seq",
+                            Dev::ForeignSource => "foreign_source",
+                            Dev::UnknownSource => "unknown_source",
+                            Dev::FirFlipped => "fir",
+                            Dev::NoConOnNonFin => "no_con",
+                            Dev::FinFlipped => "fin",
+                            Dev::UnsBitSet => "uns_bit",
+                            Dev::Iin2(_) => "iin2",
+                            Dev::TruncatedObjects => "truncated",
+                            Dev::UnknownObject => "unknown_object",
+                            Dev::NotAResponse(_) => "not_a_response",
+                        }
+                    ));
                 }
                 let mut f = good(false);
                 if planned == 0 {
-                    f = Fragment { fir: true, fin: true, con: false, uns: false, seq: cur_seq, func: func::RESPONSE, iin: Some((0, 0)), objects: read_objects(7).0 };
+                    f = Fragment {
+                        fir: true,
+                        fin: true,
+                        con: false,
+                        uns: false,
+                        seq: cur_seq,
+                        func: func::RESPONSE,
+                        iin: Some((0, 0)),
+                        objects: read_objects(7).0,
+                    };
                 }
                 let mut src = OUT_A;
                 // effect on the outstanding task: 0 = ignorable, 1 = must fail (never succeed / deliver), 2 = fail-or-ignore
@@ -406,7 +485,11 @@ async fn run_case(case: &Case) -> CaseOut {
                         3 => {
                             // early FIN: accepted as the final fragment
                             if case.task != TaskKind::Command {
-                                expect_deliveries.push(Delivery::Frag(read_type.into(), f.seq, read_objects(next_k).1));
+                                expect_deliveries.push(Delivery::Frag(
+                                    read_type.into(),
+                                    f.seq,
+                                    read_objects(next_k).1,
+                                ));
                             }
                             if f.con {
                                 expect_confirm = Some((f.seq, false, OUT_A));
@@ -415,7 +498,11 @@ async fn run_case(case: &Case) -> CaseOut {
                         }
                         _ => {
                             // FIN cleared on the planned last READ fragment (CON set): accepted, the master waits for more
-                            expect_deliveries.push(Delivery::Frag(read_type.into(), f.seq, read_objects(next_k).1));
+                            expect_deliveries.push(Delivery::Frag(
+                                read_type.into(),
+                                f.seq,
+                                read_objects(next_k).1,
+                            ));
                             expect_confirm = Some((f.seq, false, OUT_A));
                             next_k += 1;
                             elapsed_since_tx = 0;
@@ -437,8 +524,21 @@ async fn run_case(case: &Case) -> CaseOut {
                     _ => {
                         unsol_seq = (unsol_seq + 1) & 0x0F;
                         unsol_n += 1;
-                        let objects = if *with_data { unsol_objects(unsol_n).0 } else { vec![] };
-                        Fragment { fir: true, fin: true, con: *con, uns: true, seq: unsol_seq, func: func::UNSOLICITED_RESPONSE, iin: Some((0, 0)), objects }
+                        let objects = if *with_data {
+                            unsol_objects(unsol_n).0
+                        } else {
+                            vec![]
+                        };
+                        Fragment {
+                            fir: true,
+                            fin: true,
+                            con: *con,
+                            uns: true,
+                            seq: unsol_seq,
+                            func: func::UNSOLICITED_RESPONSE,
+                            iin: Some((0, 0)),
+                            objects,
+                        }
                     }
                 };
                 let repeated = *dup && last_unsol.as_ref() == Some(&f);
@@ -456,7 +556,11 @@ async fn run_case(case: &Case) -> CaseOut {
                     // a repeat of a fragment that reached the handler is confirmed but not delivered again; a repeat
                     // of a fragment that was not accepted the first time is new to the handler
                     if !unsol_delivered.contains(&unsol_n) {
-                        let idx = if f.objects.is_empty() { vec![] } else { unsol_objects(unsol_n).1 };
+                        let idx = if f.objects.is_empty() {
+                            vec![]
+                        } else {
+                            unsol_objects(unsol_n).1
+                        };
                         expect_deliveries.push(Delivery::Frag("Unsolicited".into(), f.seq, idx));
                         unsol_delivered.insert(unsol_n);
                     }
@@ -470,7 +574,16 @@ async fn run_case(case: &Case) -> CaseOut {
                 last_unsol = Some(f);
             }
             Item::UnsolUnknown => {
-                let f = Fragment { fir: true, fin: true, con: true, uns: true, seq: 3, func: func::UNSOLICITED_RESPONSE, iin: Some((0, 0)), objects: unsol_objects(99).0 };
+                let f = Fragment {
+                    fir: true,
+                    fin: true,
+                    con: true,
+                    uns: true,
+                    seq: 3,
+                    func: func::UNSOLICITED_RESPONSE,
+                    iin: Some((0, 0)),
+                    objects: unsol_objects(99).0,
+                };
                 rig.respond(3000, &f);
                 rig.settle().await;
                 if link_task && !link_done {
@@ -481,16 +594,28 @@ async fn run_case(case: &Case) -> CaseOut {
         }
         // --- what the master transmitted in reaction ---
         let tx = rig.take_requests();
-        let confirms: Vec<&(u64, u16, Fragment)> = tx.iter().filter(|(_, _, f)| f.func == func::CONFIRM).collect();
+        let confirms: Vec<&(u64, u16, Fragment)> = tx
+            .iter()
+            .filter(|(_, _, f)| f.func == func::CONFIRM)
+            .collect();
         let log_step = rig.assocs[&OUT_A].read.take();
         if let Some((f, n)) = observed_unsol {
             // while the start-up integrity poll is not known to be complete the master may ignore an unsolicited
             // response or accept it (the statement fixes neither); what it does must be coherent: confirmed and
             // delivered go together, and nothing is delivered twice
-            let idx = if f.objects.is_empty() { vec![] } else { unsol_objects(n).1 };
+            let idx = if f.objects.is_empty() {
+                vec![]
+            } else {
+                unsol_objects(n).1
+            };
             let d = Delivery::Frag("Unsolicited".into(), f.seq, idx);
-            let delivered_now = deliveries(log_step.clone()).map(|v| v.iter().filter(|x| **x == d).count()).unwrap_or(0);
-            let confirmed_now = confirms.iter().filter(|(_, dst, c)| *dst == OUT_A && c.seq == f.seq && c.uns).count();
+            let delivered_now = deliveries(log_step.clone())
+                .map(|v| v.iter().filter(|x| **x == d).count())
+                .unwrap_or(0);
+            let confirmed_now = confirms
+                .iter()
+                .filter(|(_, dst, c)| *dst == OUT_A && c.seq == f.seq && c.uns)
+                .count();
             let already = unsol_delivered.contains(&n);
             let verdict = if delivered_now > 1 || (delivered_now == 1 && already) {
                 Some("an unsolicited fragment was delivered to the handler more than once")
@@ -522,7 +647,10 @@ async fn run_case(case: &Case) -> CaseOut {
         }
         match expect_confirm {
             Some((seq, uns, dst)) => {
-                let matching = confirms.iter().filter(|(_, d, f)| *d == dst && f.seq == seq && f.uns == uns).count();
+                let matching = confirms
+                    .iter()
+                    .filter(|(_, d, f)| *d == dst && f.seq == seq && f.uns == uns)
+                    .count();
                 if matching != 1 || confirms.len() != 1 {
                     out.fail(
                         Fail::new(
@@ -547,7 +675,10 @@ async fn run_case(case: &Case) -> CaseOut {
     if let Some(p) = &pending {
         let res = p.outcomes();
         if res.len() != 1 {
-            out.fail(Fail::new("not-exactly-one-outcome", format!("the user request resolved {} times: {:?}", res.len(), res)));
+            out.fail(Fail::new(
+                "not-exactly-one-outcome",
+                format!("the user request resolved {} times: {:?}", res.len(), res),
+            ));
         } else if !link_task {
             let ok = res[0].1.starts_with("Ok");
             if ok {
@@ -578,12 +709,31 @@ async fn run_case(case: &Case) -> CaseOut {
         Err(e) => out.fail(Fail::new("handler-bracketing", e)),
         Ok(got) => {
             if !poisoned && got != expect_deliveries {
-                out.fail(Fail::new("handler-deliveries", format!("the handler received {:?}, the accepted fragments were {:?}", got, expect_deliveries)).with_sig(format!("C15 deliveries got={} expected={}", got.len(), expect_deliveries.len())));
+                out.fail(
+                    Fail::new(
+                        "handler-deliveries",
+                        format!(
+                            "the handler received {:?}, the accepted fragments were {:?}",
+                            got, expect_deliveries
+                        ),
+                    )
+                    .with_sig(format!(
+                        "C15 deliveries got={} expected={}",
+                        got.len(),
+                        expect_deliveries.len()
+                    )),
+                );
             } else if poisoned {
                 // everything delivered must still be something that was sent in an acceptable form
                 for g in &got {
                     if !expect_deliveries.contains(g) && !maybe_extra_ok {
-                        out.fail(Fail::new("handler-deliveries", format!("the handler received {:?} which no accepted fragment carried", g)));
+                        out.fail(Fail::new(
+                            "handler-deliveries",
+                            format!(
+                                "the handler received {:?} which no accepted fragment carried",
+                                g
+                            ),
+                        ));
                     }
                 }
             }
@@ -591,7 +741,10 @@ async fn run_case(case: &Case) -> CaseOut {
     }
     let other = rig.assocs[&OUT_B].read.take();
     if !other.is_empty() {
-        out.fail(Fail::new("cross-association-delivery", format!("the handler of another association received {:?}", other)));
+        out.fail(Fail::new(
+            "cross-association-delivery",
+            format!("the handler of another association received {:?}", other),
+        ));
     }
     if let Some(f) = rig.task_failure.take() {
         out.fail(f);
